@@ -26,9 +26,9 @@ from vlib import log
 PID = "C06"
 
 
-def gen_scenarios(maxlist, wd):
+def gen_scenarios(maxlist, maxlist2, wd):
     r = vlib.tlc("WireGen", workdir=os.path.join(wd, "gen"), timeout=2400,
-                 cfg_subst={r"MaxList = \d+": "MaxList = %d" % maxlist})
+                 cfg_subst={r"MaxList = \d+": "MaxList = %d" % maxlist, r"MaxList2 = \d+": "MaxList2 = %d" % maxlist2})
     if r.violated:
         raise vlib.Infra("WireGen.tla: %s violated in the model itself (layout laws vs ideal encoders)" % r.violated)
     beh = [l[4:] for l in r.printed if isinstance(l, str) and l.startswith("BEH ")]
@@ -134,7 +134,7 @@ def run(ctx):
     wd = vlib.scratch("c06-%s" % ctx.tier)
 
     # 1. shapes and stacks from the model
-    gr, beh = gen_scenarios(3 if quick else 4, wd)
+    gr, beh = gen_scenarios(3 if quick else 4, 2 if quick else 4, wd)
     bp = os.path.join(wd, "beh.ndjson")
     open(bp, "w").write("\n".join(beh) + "\n")
     nshape = sum(1 for b in beh if '"kind":"shape"' in b)
@@ -145,16 +145,32 @@ def run(ctx):
     # 2. real serializers / decoders
     kparts = 4 if quick else 8
     nfix = 4 if quick else 10
-    per = 600 if quick else 25000
+    per = 600 if quick else 12000
     procs = []
+    fixextra = []
+    if ctx.replay:
+        ser = (json.load(open(ctx.replay)).get("replay") or {}).get("ser") or {}
+        if ser.get("src") == "fix":
+            if not ser.get("hex"):
+                raise vlib.Infra("replay file carries no input bytes (inputs longer than 1600 bytes are not kept)")
+            first = ser["name"].split(" first=")[-1].split(" layer=")[0]
+            fixextra = ["-inhex", ser["hex"], "-first", first]
+            open(bp, "w").write("")
+            nfix, per = 1, 1
+        else:
+            if not ser.get("name", "").startswith("{"):
+                raise vlib.Infra("replay of %r is not supported (re-run the check)" % ser.get("name"))
+            open(bp, "w").write(ser["name"] + "\n")
+            nfix = 0
+        kparts = 1
     for k in range(kparts):
         tp = os.path.join(wd, "g-%d.ndjson" % k)
         cmd = [binp, "-mode", "c06", "-only", "gen,stack", "-part", "%d/%d" % (k, kparts), "-shapes", bp, "-stacks", bp,
-               "-seed", str(ctx.seed * 1000 + k), "-trace", tp]
+               "-seed", str(ctx.seed * 1000 + k), "-trace", tp] + (["-nobig"] if ctx.replay else [])
         procs.append((k, tp, subprocess.Popen(cmd, env=vlib.goenv(), stdout=subprocess.PIPE, stderr=subprocess.PIPE, text=True)))
     for k in range(nfix):
         tp = os.path.join(wd, "f-%d.ndjson" % k)
-        cmd = [binp, "-mode", "c06", "-only", "fix", "-n", str(per), "-seed", str(ctx.seed * 1000 + 100 + k), "-trace", tp]
+        cmd = [binp, "-mode", "c06", "-only", "fix", "-n", str(per), "-seed", str(ctx.seed * 1000 + 100 + k), "-trace", tp] + fixextra
         procs.append((100 + k, tp, subprocess.Popen(cmd, env=vlib.goenv(), stdout=subprocess.PIPE, stderr=subprocess.PIPE, text=True)))
     stats = {}
     for k, tp, p in procs:
@@ -174,8 +190,8 @@ def run(ctx):
     # 3. TLC judges
     def val(job):
         k, tp, _ = job
-        return tp, vlib.validate_trace("CodecTrace", tp, "c06-%d" % k, heap="6g", timeout=3000)
-    with ThreadPoolExecutor(max_workers=4 if quick else 7) as ex:
+        return tp, vlib.validate_trace("CodecTrace", tp, "c06-%d" % k, heap="5g", timeout=3000)
+    with ThreadPoolExecutor(max_workers=4 if quick else 6) as ex:
         results = list(ex.map(val, procs))
     cnt = {"ser": 0, "vacuous": 0, "dec": 0, "ser2": 0, "laws": 0}
     tstates = lines = nbad = 0
@@ -219,10 +235,10 @@ def run(ctx):
         log("[C06] NOTE: %d serializations returned an error (outside the property, not judged):" % cnt["vacuous"])
         for k, n in sorted(sererr.items(), key=lambda kv: -kv[1])[:12]:
             log("         %5d  %s" % (n, k))
-    if judged == 0 or cnt["laws"] == 0:
+    if not ctx.replay and (judged == 0 or cnt["laws"] == 0):
         raise vlib.Infra("nothing was judged (judged=%d laws=%d)" % (judged, cnt["laws"]))
     rc = V.finish()
-    nst = self_test(procs[0][1], wd)
+    nst = 0 if ctx.replay else self_test(procs[0][1], wd)
     cov = {"evaluations": judged, "distinct_nontrivial": len(sigs),
            "rule": "evaluation = one round trip Ser -> Dec -> Ser2 judged by TLC (serialization errors excluded); non-trivial = "
                    "distinct (source, layer types, list lengths, payload length) signature",
